@@ -308,6 +308,14 @@ def _family(tier):
         v[3, 1] = rnp.nan
         return trimesh.Trimesh(v, rnp.array(m.faces), process=False)
 
+    def inf_referenced():
+        # +inf / -inf in REFERENCED vertices and no NaN anywhere
+        m = trimesh.creation.box()
+        v = rnp.array(m.vertices)
+        v[3, 1] = rnp.inf
+        v[6, 0] = -rnp.inf
+        return trimesh.Trimesh(v, rnp.array(m.faces), process=False)
+
     def near_dups():
         m = trimesh.creation.box()
         v = rnp.vstack([m.vertices, m.vertices[:4] + 1e-10])
@@ -316,7 +324,7 @@ def _family(tier):
         f2[::2][f2[::2] < 4] += 8
         return trimesh.Trimesh(v, f2, process=False)
 
-    fam += [("dup_verts", dup_verts), ("nonfinite", nonfinite), ("nonfinite_referenced", nonfinite_referenced), ("near_dups", near_dups)]
+    fam += [("dup_verts", dup_verts), ("nonfinite", nonfinite), ("nonfinite_referenced", nonfinite_referenced), ("inf_referenced", inf_referenced), ("near_dups", near_dups)]
     return fam
 
 
@@ -467,8 +475,44 @@ def split_concat(tier, seed):
                     k += n
             except Exception as ex:  # noqa: BLE001
                 fail("concatenate[%s]:raised %s" % (tag, type(ex).__name__), mesh=mname, detail=str(ex)[:100])
+    # colours ride along with their triangles whichever member comes first
+    box = trimesh.creation.box
+    for kind in ("vertex", "face"):
+        for order in ("coloured-first", "plain-first", "plain-in-the-middle", "empty-then-plain-then-coloured"):
+            cases += 1
+            try:
+                def coloured(shift):
+                    m = box()
+                    m.apply_translation([shift, 0, 0])
+                    if kind == "vertex":
+                        m.visual.vertex_colors = rnp.column_stack([rnp.arange(8) * 30, rnp.full(8, 7), rnp.full(8, 200), rnp.full(8, 255)]).astype(rnp.uint8)
+                    else:
+                        m.visual.face_colors = rnp.column_stack([rnp.arange(12) * 20, rnp.full(12, 9), rnp.full(12, 100), rnp.full(12, 255)]).astype(rnp.uint8)
+                    return m
+
+                plain = box().apply_translation([0, 5.0, 0])
+                c1, c2 = coloured(3.0), coloured(9.0)
+                seq = {"coloured-first": [c1, plain, c2], "plain-first": [plain, c1, c2], "plain-in-the-middle": [c1, plain, c2], "empty-then-plain-then-coloured": [trimesh.Trimesh(), plain, c1, c2]}[order]
+                with warnings.catch_warnings():
+                    warnings.simplefilter("ignore")
+                    c = trimesh.util.concatenate(seq)
+                if c.visual.kind != kind:
+                    fail("concatenate:%s-colours-lost[%s]" % (kind, order), mesh="box", detail="kind %r" % (c.visual.kind,))
+                    continue
+                # per triangle corner colours of the coloured members, found by position
+                k = 0
+                for s_ in seq:
+                    n = len(s_.faces)
+                    if n and s_.visual.kind == kind:
+                        got = rnp.asarray(c.visual.face_colors)[k : k + n] if kind == "face" else rnp.asarray(c.visual.vertex_colors)[rnp.asarray(c.faces)[k : k + n]]
+                        want_c = rnp.asarray(s_.visual.face_colors) if kind == "face" else rnp.asarray(s_.visual.vertex_colors)[rnp.asarray(s_.faces)]
+                        if not rnp.array_equal(got, want_c):
+                            fail("concatenate:%s-colours-moved[%s]" % (kind, order), mesh="box")
+                    k += n
+            except Exception as ex:  # noqa: BLE001
+                fail("concatenate:colours raised %s[%s;%s]" % (type(ex).__name__, kind, order), mesh="box", detail=str(ex)[:100])
     fails = sorted(cells.values(), key=lambda c: c["cell"])
-    r = common.result(cases, cases, fails, "mesh family x (9 submeshes, split with 2 engines, 4 concatenations)", exhaustive=True)
+    r = common.result(cases, cases, fails, "mesh family x (9 submeshes, split with 2 engines, 4 concatenations) + colours through 8 concatenation orders", exhaustive=True)
     r["failures"] = fails
     return r
 
